@@ -662,8 +662,8 @@ Local Notation ts_fields := (@ts_fields V TS).
 Local Notation attr := (@attr V RES dflt).
 Local Notation expand_loop := (@expand_loop V RES vver vname dflt TS tsres).
 Local Notation iter_timestamped := (@iter_timestamped V RES vver vname dflt TS tsres).
-Local Notation ref_expand := (@ref_expand V RES vver vname TS tsres).
-Local Notation ref_expand_one := (@ref_expand_one V RES vver vname TS tsres).
+Local Notation ref_expand := (@ref_expand V RES vver vname TS).
+Local Notation ref_expand_one := (@ref_expand_one V RES vver vname TS).
 
 Hypothesis TS_distinct : ts_k1 TS <> ts_k2 TS.
 Hypothesis TS_not_res : ~ In (ts_k1 TS) res_names /\ ~ In (ts_k2 TS) res_names.
@@ -680,11 +680,31 @@ Qed.
 Lemma restamp_length : forall vs, List.length vs = List.length RES -> List.length (restamp vs) = List.length RES.
 Proof. intros vs H. unfold Compose.restamp. rewrite map_length, combine_length, H. apply Nat.min_id. Qed.
 
-Definition ts_out (nm : string) (v : V) (n : string) (base : list fld) : rec :=
-  mkRec nm ((ts_k1 TS, (ts_t1 TS, v)) :: (ts_k2 TS, (ts_t2 TS, vname n)) :: filter not_ts base) (restamp tsres).
+Lemma map_snd_combine : forall (A B : Type) (l : list A) (vs : list B),
+  List.length vs = List.length l -> map snd (combine l vs) = vs.
+Proof.
+  induction l as [|x l IH]; intros vs H; destruct vs as [|v vs]; simpl in *; try discriminate; [reflexivity|].
+  f_equal. apply IH. injection H as H. exact H.
+Qed.
+
+Lemma combine_map_combine : forall (G : string * V -> V) (ks : list string) (vs : list V),
+  combine ks (map G (combine ks vs)) = map (fun p => (fst p, G p)) (combine ks vs).
+Proof.
+  induction ks as [|k ks IH]; intros vs; [reflexivity|]. destruct vs as [|v vs]; [reflexivity|]. simpl. rewrite IH. reflexivity.
+Qed.
+
+Local Notation rec_set := (@rec_set V RES).
+Local Notation copy_meta := (@copy_meta V RES dflt TS).
+
+(* the slots copied from the original are reserved slots, and they are all of them but _version *)
+Hypothesis META_res : forall k, In k (ts_meta TS) -> In k res_names.
+Hypothesis META_cover : forall e, In e RES -> mem (fst e) (ts_meta TS) = negb (String.eqb (fst e) "_version").
+
+Definition ts_out (nm : string) (v : V) (n : string) (base : list fld) (res : list V) : rec :=
+  mkRec nm ((ts_k1 TS, (ts_t1 TS, v)) :: (ts_k2 TS, (ts_t2 TS, vname n)) :: filter not_ts base) res.
 
 Lemma extend_ts : forall nm v n (c : rec), wf c ->
-  extend false (Some nm) (ts_record v n) [c] = ts_out nm v n (rfields c).
+  extend false (Some nm) (ts_record v n) [c] = ts_out nm v n (rfields c) (restamp tsres).
 Proof.
   intros nm v n c Hc. rewrite extend_ref by (constructor; [apply wf_ts_record|constructor; [exact Hc|constructor]]).
   unfold Compose.ref_extend, ts_out. simpl. f_equal.
@@ -700,10 +720,11 @@ Proof. intros. unfold Compose.not_ts, fname. simpl. rewrite String.eqb_refl. ref
 Lemma not_ts_k2 : forall p, not_ts (ts_k2 TS, p) = false.
 Proof. intros. unfold Compose.not_ts, fname. simpl. rewrite String.eqb_refl, andb_false_r. reflexivity. Qed.
 
-Lemma wf_ts_out : forall nm v n (base : list fld),
-  NoDup (map (@fname V) base) -> (forall k, In k (map (@fname V) base) -> ~ In k res_names) -> wf (ts_out nm v n base).
+Lemma wf_ts_out : forall nm v n (base : list fld) (res : list V),
+  NoDup (map (@fname V) base) -> (forall k, In k (map (@fname V) base) -> ~ In k res_names) ->
+  List.length res = List.length RES -> wf (ts_out nm v n base res).
 Proof.
-  intros nm v n base Hnd Hres. unfold Compose.wf, ts_out, names_of. simpl.
+  intros nm v n base res Hnd Hres Hlen. unfold Compose.wf, ts_out, names_of. simpl.
   assert (Hsub : forall k, In k (map (@fname V) (filter not_ts base)) ->
                            In k (map (@fname V) base) /\ k <> ts_k1 TS /\ k <> ts_k2 TS).
   { intros k Hk. apply in_map_iff in Hk. destruct Hk as [f [Hf Hin]]. apply filter_In in Hin. destruct Hin as [Hin Hnt].
@@ -718,20 +739,114 @@ Proof.
     + intros [H|H]; [apply TS_distinct; symmetry; exact H|]. apply Hsub in H. destruct H as [_ [H _]]. apply H. reflexivity.
     + constructor; [|exact Hnd']. intros H. apply Hsub in H. destruct H as [_ [_ H]]. apply H. reflexivity.
   - intros k [H|[H|H]]; [subst k; apply TS_not_res|subst k; apply TS_not_res|]. apply Hres. apply Hsub. exact H.
-  - apply restamp_length. exact tsres_len.
+  - exact Hlen.
+Qed.
+
+(* setattr on a reserved slot leaves the fields alone *)
+Lemma rec_set_res : forall (o : rec) k v, ~ In k (names_of o) ->
+  rec_set o k v = mkRec (rname o) (rfields o) (map (fun p => if String.eqb k (fst p) then v else snd p) (combine res_names (rres o))).
+Proof.
+  intros o k v Hk. unfold Compose.rec_set. f_equal. rewrite <- (map_id (rfields o)) at 2. apply map_ext_in. intros f Hf.
+  destruct (String.eqb k (fname f)) eqn:E; [|reflexivity]. apply String.eqb_eq in E. exfalso. apply Hk. subst k.
+  unfold names_of. apply in_map. exact Hf.
+Qed.
+
+Lemma copy_fold : forall (src : string -> V) (ks done : list string) (o : rec) (vs : list V) (nm : string) (fs : list fld),
+  (forall k, In k ks -> ~ In k (map (@fname V) fs)) ->
+  rname o = nm -> rfields o = fs ->
+  rres o = map (fun p => if mem (fst p) done then src (fst p) else snd p) (combine res_names vs) ->
+  fold_left (fun o k => rec_set o k (src k)) ks o =
+  mkRec nm fs (map (fun p => if mem (fst p) ks || mem (fst p) done then src (fst p) else snd p) (combine res_names vs)).
+Proof.
+  induction ks as [|k ks IH]; intros done o vs nm fs Hk Hn Hf Hr; simpl.
+  - destruct o as [n0 f0 r0]. simpl in *. subst. reflexivity.
+  - rewrite (IH (k :: done) _ vs nm fs).
+    + f_equal. apply map_ext. intros p. rewrite !mem_cons.
+      destruct (String.eqb (fst p) k); destruct (mem (fst p) ks); destruct (mem (fst p) done); reflexivity.
+    + intros x Hx. apply Hk. right. exact Hx.
+    + rewrite rec_set_res; [exact Hn|]. unfold names_of. rewrite Hf. apply Hk. left. reflexivity.
+    + rewrite rec_set_res; [exact Hf|]. unfold names_of. rewrite Hf. apply Hk. left. reflexivity.
+    + rewrite rec_set_res by (unfold names_of; rewrite Hf; apply Hk; left; reflexivity). simpl. rewrite Hr.
+      rewrite (combine_map_combine (fun p => if mem (fst p) done then src (fst p) else snd p)), map_map. apply map_ext.
+      intros p. simpl. rewrite mem_cons. destruct (String.eqb k (fst p)) eqn:E.
+      * apply String.eqb_eq in E. subst k. rewrite String.eqb_refl. reflexivity.
+      * rewrite String.eqb_sym, E. reflexivity.
+Qed.
+
+Lemma copy_meta_spec : forall (r o : rec),
+  (forall k, In k res_names -> ~ In k (names_of o)) -> List.length (rres o) = List.length RES ->
+  copy_meta r o =
+  mkRec (rname o) (rfields o)
+        (map (fun p => if mem (fst p) (ts_meta TS) then attr r (fst p) else snd p) (combine res_names (rres o))).
+Proof.
+  intros r o Hres Hlen. unfold Compose.copy_meta.
+  rewrite (copy_fold (attr r) (ts_meta TS) [] o (rres o) (rname o) (rfields o)).
+  - f_equal. apply map_ext. intros p. rewrite mem_nil, orb_false_r. reflexivity.
+  - intros k Hk. apply Hres. apply META_res. exact Hk.
+  - reflexivity.
+  - reflexivity.
+  - symmetry. rewrite <- (map_snd_combine _ _ res_names (rres o)) at 2.
+    + apply map_ext. intros p. rewrite mem_nil. reflexivity.
+    + unfold Compose.res_names. rewrite map_length. exact Hlen.
+Qed.
+
+(* every reserved slot but _version copied from the original, _version stamped = the original's slots, stamped *)
+Lemma meta_final_gen : forall (look : string -> V) (R : list (string * string)) (T O : list V),
+  List.length T = List.length R -> List.length O = List.length R ->
+  (forall p, In p (combine (map fst R) O) -> look (fst p) = snd p) ->
+  (forall e, In e R -> mem (fst e) (ts_meta TS) = negb (String.eqb (fst e) "_version")) ->
+  map (fun p => if mem (fst p) (ts_meta TS) then look (fst p) else snd p)
+      (combine (map fst R) (map (fun p => if String.eqb (fst (fst p)) "_version" then vver else snd p) (combine R T)))
+  = map (fun p => if String.eqb (fst (fst p)) "_version" then vver else snd p) (combine R O).
+Proof.
+  induction R as [|e R IH]; intros T O HT HO Hlook Hcov; destruct T as [|t T]; destruct O as [|o O]; simpl in *; try discriminate;
+    [reflexivity|].
+  injection HT as HT. injection HO as HO. f_equal.
+  - rewrite (Hcov e (or_introl eq_refl)). destruct (String.eqb (fst e) "_version"); simpl; [reflexivity|].
+    apply (Hlook (fst e, o)). left. reflexivity.
+  - apply IH; auto.
+Qed.
+
+Lemma attr_res : forall (r : rec) p, wf r -> In p (combine res_names (rres r)) -> attr r (fst p) = snd p.
+Proof.
+  intros r p Hwf Hp. assert (Hk : In (fst p) res_names). { destruct p as [k v]. apply in_combine_l in Hp. exact Hp. }
+  unfold Compose.attr. rewrite (rec_get_nofield r _ (wf_res_not_field r _ Hwf Hk)).
+  rewrite (assoc_In_nodup _ (combine res_names (rres r)) p); [reflexivity| |exact Hp].
+  rewrite keys_combine; [exact RES_nodup|]. destruct Hwf as [_ [_ Hlen]]. unfold Compose.res_names. rewrite map_length. exact Hlen.
+Qed.
+
+Lemma copy_meta_ts_out : forall (r : rec) nm v n base, wf r ->
+  (forall k, In k res_names -> ~ In k (names_of (ts_out nm v n base (restamp tsres)))) ->
+  copy_meta r (ts_out nm v n base (restamp tsres)) = ts_out nm v n base (restamp (rres r)).
+Proof.
+  intros r nm v n base Hwf Hres. rewrite copy_meta_spec.
+  - unfold ts_out. simpl. f_equal. unfold Compose.restamp at 1 2.
+    destruct Hwf as [Hnd [Hr Hlen]].
+    apply (meta_final_gen (attr r) RES tsres (rres r) tsres_len Hlen).
+    + intros p Hp. apply attr_res; [exact (conj Hnd (conj Hr Hlen))|exact Hp].
+    + exact META_cover.
+  - exact Hres.
+  - unfold ts_out. simpl. apply restamp_length. exact tsres_len.
 Qed.
 
 Lemma expand_loop_ref : forall prev (r : rec) fs (cur : rec),
   wf r -> wf cur -> filter not_ts (rfields cur) = filter not_ts (rfields r) ->
-  expand_loop prev r cur fs = map (fun f => ts_out (rname r) (attr r (fname f)) (fname f) (rfields r)) fs.
+  expand_loop prev r cur fs =
+  map (fun f => ts_out (rname r) (attr r (fname f)) (fname f) (rfields r) (restamp (rres r))) fs.
 Proof.
   intros prev r fs. induction fs as [|f fs IH]; intros cur Hr Hcur Hinv; simpl; [reflexivity|].
-  assert (Hout : extend false (Some (rname r)) (ts_record (attr r (fname f)) (fname f)) [if prev then cur else r]
-                 = ts_out (rname r) (attr r (fname f)) (fname f) (rfields r)).
-  { rewrite extend_ts by (destruct prev; assumption). unfold ts_out. destruct prev; [rewrite Hinv|]; reflexivity. }
+  assert (Hwfo : forall res, List.length res = List.length RES ->
+                             wf (ts_out (rname r) (attr r (fname f)) (fname f) (rfields r) res)).
+  { intros res Hlen. destruct Hr as [Hnd [Hres _]]. apply wf_ts_out; assumption. }
+  assert (Hout : copy_meta r (extend false (Some (rname r)) (ts_record (attr r (fname f)) (fname f)) [if prev then cur else r])
+                 = ts_out (rname r) (attr r (fname f)) (fname f) (rfields r) (restamp (rres r))).
+  { rewrite extend_ts by (destruct prev; assumption).
+    assert (Hb : filter not_ts (rfields (if prev then cur else r)) = filter not_ts (rfields r)) by (destruct prev; [exact Hinv|reflexivity]).
+    unfold ts_out at 1. rewrite Hb. apply copy_meta_ts_out; [exact Hr|].
+    intros k Hk Hin. destruct (Hwfo (restamp tsres) (restamp_length _ tsres_len)) as [_ [Hn _]]. exact (Hn k Hin Hk). }
   rewrite Hout. f_equal. apply IH.
   - exact Hr.
-  - destruct Hr as [Hnd [Hres _]]. apply wf_ts_out; assumption.
+  - apply Hwfo. apply restamp_length. destruct Hr as [_ [_ Hlen]]. exact Hlen.
   - unfold ts_out. simpl. rewrite not_ts_k1, not_ts_k2, filter_filter'. apply filter_ext_in'. intros x _. apply andb_diag.
 Qed.
 
@@ -1163,13 +1278,6 @@ Proof.
     destruct (ref_slot k ms) as [[t i]|]; reflexivity.
 Qed.
 
-Lemma map_snd_combine : forall (A B : Type) (l : list A) (vs : list B),
-  List.length vs = List.length l -> map snd (combine l vs) = vs.
-Proof.
-  induction l as [|x l IH]; intros vs H; destruct vs as [|v vs]; simpl in *; try discriminate; [reflexivity|].
-  f_equal. apply IH. injection H as H. exact H.
-Qed.
-
 Theorem group_view_ref : forall g : group, group_ok g -> gmembers g <> [] ->
   group_view g = ref_group_view (gname g) (gmembers g).
 Proof.
@@ -1200,7 +1308,6 @@ Proof.
 Qed.
 
 (* ---- setting through the group ---- *)
-Local Notation rec_set := (@rec_set V RES).
 Local Notation group_set := (@group_set V RES).
 
 Lemma ref_slot_first_index : forall k (ms : list rec), option_map snd (ref_slot k ms) = first_index k ms.
@@ -1230,12 +1337,6 @@ Proof.
   induction l as [|x l IH]; intros i j; simpl.
   - destruct i; destruct j; simpl; try reflexivity; destruct (Nat.eqb i j); reflexivity.
   - destruct i; destruct j; simpl; try reflexivity. apply IH.
-Qed.
-
-Lemma combine_map_combine : forall (G : string * V -> V) (ks : list string) (vs : list V),
-  combine ks (map G (combine ks vs)) = map (fun p => (fst p, G p)) (combine ks vs).
-Proof.
-  induction ks as [|k ks IH]; intros vs; [reflexivity|]. destruct vs as [|v vs]; [reflexivity|]. simpl. rewrite IH. reflexivity.
 Qed.
 
 Lemma assoc_map_set : forall k v k' (l : @dict V),
@@ -1424,15 +1525,21 @@ Hypothesis F_ok : facts_ok F = true.
 Hypothesis T_ok : tables_ok RES TS = true.
 
 Lemma tables_ok_inv :
-  NoDup (map fst RES) /\ ts_k1 TS <> ts_k2 TS /\ ~ In (ts_k1 TS) (res_names RES) /\ ~ In (ts_k2 TS) (res_names RES).
+  NoDup (map fst RES) /\ ts_k1 TS <> ts_k2 TS /\ ~ In (ts_k1 TS) (res_names RES) /\ ~ In (ts_k2 TS) (res_names RES) /\
+  (forall k, In k (ts_meta TS) -> In k (res_names RES)) /\
+  (forall e, In e RES -> mem (fst e) (ts_meta TS) = negb (String.eqb (fst e) "_version")).
 Proof.
-  unfold tables_ok in T_ok. apply andb_prop in T_ok. destruct T_ok as [H123 H4].
+  unfold tables_ok in T_ok. apply andb_prop in T_ok. destruct T_ok as [H12345 H6].
+  apply andb_prop in H12345. destruct H12345 as [H1234 H5].
+  apply andb_prop in H1234. destruct H1234 as [H123 H4].
   apply andb_prop in H123. destruct H123 as [H12 H3]. apply andb_prop in H12. destruct H12 as [H1 H2].
   apply negb_true_iff in H2, H3, H4. repeat split.
   - apply nodupb_NoDup. exact H1.
   - apply String.eqb_neq. exact H2.
   - apply mem_false. exact H3.
   - apply mem_false. exact H4.
+  - intros k Hk. rewrite forallb_forall in H6. apply mem_In. apply H6. exact Hk.
+  - intros e He. rewrite forallb_forall in H5. apply Bool.eqb_prop. apply H5. exact He.
 Qed.
 
 Lemma merge_facts : forall replace (ds : list (list (string * string))),
@@ -1450,9 +1557,9 @@ Qed.
 
 Lemma expand_facts : forall prev (r : @rec V),
   List.length tsres = List.length RES -> wf RES r ->
-  p_iter_timestamped RES vver vname dflt TS tsres F prev r = Some (ref_expand RES vver vname TS tsres r).
+  p_iter_timestamped RES vver vname dflt TS tsres F prev r = Some (ref_expand RES vver vname TS r).
 Proof.
-  intros prev r Hlen Hwf. destruct tables_ok_inv as [Hnd [H1 [H2 H3]]].
+  intros prev r Hlen Hwf. destruct tables_ok_inv as [Hnd [H1 [H2 [H3 [H4 H5]]]]].
   rewrite (facts_ok_eq F F_ok), p_iter_timestamped_std. f_equal. apply iter_timestamped_ref; auto.
 Qed.
 
